@@ -8,7 +8,7 @@ THEOREMS = ["SCP.C03." + t for t in """get_insert use_sees_latest assign_stores 
 self_reference registerVar_frame parseLine_frame exec_frame failed_line_frame findLocation_some_iff pickBest_spec""".split()] + \
     ["SCP.VarTermination.varStep_lowers", "SCP.VarTermination.varLoop_stable", "SCP.VarTermination.updateTokenVariables_stable"]
 RULE = ("straight-line programs (3-12 lines) over a pool of colliding names (one-word, multi-word, prefixes of each other, names "
-        "equal modulo blanks, names containing a number, random letter case): assignments of arithmetic over literals and earlier "
+        "equal modulo blanks, names containing a number, names that are month or zone words (no ordinary word in the line), random letter case): assignments of arithmetic over literals and earlier "
         "names, re-assignments, self-references, copies, negated uses, values of other kinds (money, percent, duration, date, time, "
         "unit) copied through variables, lines failing at parse time and at evaluation time; oracle = an environment simulated in "
         "Python (doubles in tree order, bit-exact) and, for non-number kinds, the defining literal evaluated standalone; "
@@ -196,7 +196,28 @@ def run(ctx, model_ok):
         ([("x = 5", ("num", 5.0)), ("x = 1 +", ("fail",)), ("x", ("num", 5.0)), ("x = 2 * 1 usd", ("fail",)), ("x + 1", ("num", 6.0))], 1),
         ([("tax + 10", ("skip",)), ("tax = 2", ("num", 2.0)), ("tax + 10", ("num", 12.0)), ("tax + 10", ("num", 12.0))], 1),
         ([("Total = 4", ("num", 4.0)), ("TOTAL * 2", ("num", 8.0)), ("total = total - 1", ("num", 3.0)), ("tOtAl", ("num", 3.0))], 1),
+        # names that are not ordinary words: month names and zone names (their tokens are Month / Timezone, not Text); the lines
+        # that use them contain no ordinary word at all
+        ([("may = 1200", ("num", 1200.0)), ("april = 1000", ("num", 1000.0)), ("april + may", ("num", 2200.0)), ("may * 2", ("num", 2400.0))], 0),
+        ([("march = 10", ("num", 10.0)), ("march = march * 2", ("num", 20.0)), ("march", ("num", 20.0))], 1),
+        ([("est = 3", ("num", 3.0)), ("est * 2", ("num", 6.0)), ("EST + 1", ("num", 4.0))], 0),
+        ([("dec = 4", ("num", 4.0)), ("x = dec + dec", ("num", 8.0)), ("dec = x", ("num", 8.0)), ("dec / 2", ("num", 4.0))], 1),
     ]
+    for _ in range(ctx.n(30, 600)):
+        # random programs over month / zone names only
+        pool = rng.sample(["may", "march", "april", "june", "dec", "oct", "est", "cet", "pst", "jst"], 3)
+        vals, lines_ = {}, []
+        for n_ in pool[:2]:
+            v_ = float(rng.randint(1, 500))
+            vals[n_] = v_
+            lines_.append((f"{n_} = {int(v_)}", ("num", v_)))
+        a_, b_ = pool[0], pool[1]
+        op_ = rng.choice("+-*")
+        r_ = {"+": vals[a_] + vals[b_], "-": vals[a_] - vals[b_], "*": vals[a_] * vals[b_]}[op_]
+        lines_.append((f"{a_} {op_} {b_}", ("num", r_)))
+        lines_.append((f"{pool[2]} = {a_} {op_} {b_}", ("num", r_)))
+        lines_.append((f"{rng.choice([pool[2], pool[2].upper(), pool[2].capitalize()])} * 2", ("num", r_ * 2)))
+        curated.append((lines_, 0))
     progs = curated + progs
     texts = ["\n".join(t for t, _ in lines) for lines, _ in progs]
     res = C.run_impl_sharded([[{"op": "exec", "lang": "en", "text": t}] for t in texts])
